@@ -11,6 +11,8 @@
 //	E      same, but with an unclean path ("dir/./config.yml")
 //	o      deliver a notification for another file (ignored by the loop)
 //	x:<k>  make the watcher fail (k = err | chan | dir | dir2); the loop re-attaches on its next tick
+//	q:<n>  the next n attempts of the watcher factory fail (99: all) — watcher loss with failing re-attach:
+//	       no notifications AND no watcher; the periodic reconciliation must still find every change
 //
 // A write without a following e/E is a change whose notification was LOST; extra e's are duplicated/delayed
 // notifications.  Compared with the model: the SEQUENCE OF CONTENTS seen by the callback, the callback instants
@@ -40,6 +42,7 @@ import (
 	"os"
 	"path/filepath"
 	"sort"
+	"strconv"
 	"strings"
 	"sync"
 	"syscall"
@@ -236,11 +239,16 @@ func runInstance(dir string, sc script) (out outcome) {
 		cbTimes []time.Duration
 		start   time.Time
 	)
+	failAttach := 0 // how many of the next re-attach attempts fail (script op q:<n>); guarded by mu
 	newWatcher := func(string) (vx.C38EventWatcher, error) {
-		w := newFake()
 		mu.Lock()
+		defer mu.Unlock()
+		if failAttach > 0 {
+			failAttach--
+			return nil, errors.New("scripted: too many open files")
+		}
+		w := newFake()
 		cur = w
-		mu.Unlock()
 		return w, nil
 	}
 	cb := func() error {
@@ -310,6 +318,11 @@ func runInstance(dir string, sc script) (out outcome) {
 				panic(err)
 			}
 			lastFsOp = time.Since(start)
+		case "q": // re-program the watcher factory: the next n attach attempts fail
+			n, _ := strconv.Atoi(o.arg)
+			mu.Lock()
+			failAttach = n
+			mu.Unlock()
 		case "m": // rewrite in place (same inode) and put the previous modification time back
 			fi, statErr := os.Stat(path)
 			if err := writeInPlace(path, contentBytes(o.arg)); err != nil {
@@ -446,8 +459,10 @@ func genBurst(r *hx.Rng, t0, n, lossy int) []op {
 			o.kind, o.arg = "r", hx.Pick(r, []string{"a", "b", "c"})
 		case k < 54:
 			o.kind = "d"
-		case k < 61:
+		case k < 59:
 			o.kind, o.arg = "x", hx.Pick(r, []string{"err", "chan", "dir", "dir2"})
+		case k < 61:
+			o.kind, o.arg = "q", hx.Pick(r, []string{"1", "2", "99", "0"})
 		case k < 65:
 			o.kind = "o"
 		case k < 69:
@@ -564,6 +579,38 @@ func genFlipProbe(r *hx.Rng) script {
 	return sc
 }
 
+// genDetachedProbe: the factory is made to fail (for good or for a few attempts), the watcher is lost, then the
+// content changes once or twice (one change possibly as the lone write after a tick); nothing but the periodic
+// reconciliation can find it.
+func genDetachedProbe(r *hx.Rng) script {
+	sc := script{class: "probe", R: hx.Pick(r, []int{600, 700, 800})}
+	sc.init = hx.Pick(r, []string{"a", "b", "-"})
+	content := func() op {
+		c := hx.Pick(r, []string{"a", "b", "c"})
+		return op{0, hx.Pick(r, []string{"w", "w", "m", "r"}), c}
+	}
+	t := 300
+	add := func(o op) { o.t = t; sc.ops = append(sc.ops, o); t++ }
+	add(op{kind: "q", arg: hx.Pick(r, []string{"99", "99", "1", "2", "3"})})
+	add(op{kind: "x", arg: hx.Pick(r, []string{"err", "chan", "dir", "dir2"})})
+	if r.Bool() {
+		add(content())
+		if r.Bool() {
+			add(op{kind: "e"}) // cannot be delivered: there is no watcher
+		}
+	}
+	if r.Bool() || len(sc.ops) == 2 {
+		t = sc.R + 50 // after the first failed re-attach, inside that tick's debounce window
+		if r.Bool() {
+			t = sc.R + 300
+		}
+		add(content())
+	}
+	last := sc.ops[len(sc.ops)-1].t
+	sc.end = (last/sc.R+1)*sc.R + debounceMs*2 + 250
+	return sc
+}
+
 func fixedScripts() []script {
 	mk := func(class string, R int, init string, ops ...op) script {
 		last := 0
@@ -578,6 +625,7 @@ func fixedScripts() []script {
 	withEnd := func(sc script, end int) script { sc.end = end; return sc }
 	W := func(t int, c string) op { return op{t, "w", c} }
 	M := func(t int, c string) op { return op{t, "m", c} }
+	Q := func(t int, n int) op { return op{t, "q", strconv.Itoa(n)} }
 	P := func(t int, c string) op { return op{t, "p", c} }
 	Rp := func(t int, c string) op { return op{t, "r", c} }
 	D := func(t int) op { return op{t, "d", ""} }
@@ -610,6 +658,11 @@ func fixedScripts() []script {
 		mk("probe", tickless, "a", P(100, "b"), E(101)),
 		mk("probe", tickless, "a", W(100, "b"), E(101), M(500, "a"), E(501), M(900, "b"), E(901)),
 		mk("probe", 700, "b", M(300, "a"), E(301), M(302, "b"), E(303), M(304, "a")),
+		// probes: the watcher is lost and cannot be re-attached; changes must still be found by polling
+		mk("probe", 600, "a", Q(300, 99), X(301, "err"), W(302, "b")),
+		mk("probe", 700, "a", Q(300, 99), X(301, "chan"), W(302, "b"), E(303), W(1050, "c")),
+		mk("probe", 600, "b", Q(300, 1), X(301, "dir"), Rp(302, "a"), W(1500, "c"), E(1501)),
+		mk("probe", 600, "a", Q(300, 2), X(301, "dir2"), M(302, "b")),
 		// ordinary behaviour
 		mk("basic", 600, "a"),
 		mk("basic", 600, "a", W(300, "b")),                                  // notification lost: reconciliation finds it
@@ -673,12 +726,16 @@ func main() {
 	for i := 0; i < run.Scale(16, 60); i++ {
 		jobs = append(jobs, &job{sc: genFlipProbe(run.Rng)})
 	}
+	// … and around "no watcher and no way to get one back"
+	for i := 0; i < run.Scale(12, 50); i++ {
+		jobs = append(jobs, &job{sc: genDetachedProbe(run.Rng)})
+	}
 	for i := 0; i < nRandom; i++ {
 		sc := genScript(run.Rng, run.Scale(6, 9))
 		jobs = append(jobs, &job{sc: sc})
 	}
 
-	const batch = 200 // scripts per batch, two instances each, all in parallel (they mostly sleep)
+	const batch = 240 // scripts per batch, two instances each, all in parallel (they mostly sleep)
 	unstable, reruns, dirID := 0, 0, 0
 	for lo := 0; lo < len(jobs); lo += batch {
 		hi := lo + batch
